@@ -113,6 +113,33 @@ func (m *c21Model) gc(isFree func(ord int) bool) {
 	}
 }
 
+// timingDependent: the ordinal is cooling down and so close to the end of its cooldown that the
+// wall clock decides whether a garbage-collection pass frees it.
+func (m *c21Model) timingDependent(o int) bool {
+	x := m.ords[o]
+	return x.state == c21Cooling && x.age <= m.cooldown && x.age >= m.cooldown-m.slack
+}
+
+// resync is used after an operation that wrote the block: if its own pass freed a
+// timing-dependent ordinal that the model (which looked a moment earlier) had kept, adopt the
+// persisted free list, in its exact order.
+func (m *c21Model) resync(raw *model.AllocationBlock) {
+	changed := false
+	for o := 0; o < c21N; o++ {
+		if m.timingDependent(o) && raw.Allocations[o] == nil {
+			m.ords[o] = c21Ord{state: c21Free}
+			changed = true
+		}
+	}
+	if !changed {
+		return
+	}
+	m.queue = nil
+	for _, o := range raw.Unallocated {
+		m.queue = append(m.queue, []int{o})
+	}
+}
+
 func (m *c21Model) clone() *c21Model {
 	c := *m
 	c.queue = nil
@@ -386,6 +413,8 @@ type c21Exec interface {
 	// load returns the current persisted block after the garbage collection a load performs
 	// (nil if it does not exist yet).
 	block() *model.AllocationBlock
+	// raw returns the persisted block as it is (no garbage collection).
+	raw() *model.AllocationBlock
 	assign(n int, handle string) (ords []int, err error)
 	assignIP(ord int, handle string) error
 	release(opts []c21RelOpt) (unallocated []int, err error)
@@ -404,10 +433,10 @@ func c21RunHistory(t *rapid.T, rec *ev.Recorder, ex c21Exec, m *c21Model, nOps i
 		}
 		t.Fatalf("C21 VIOLATION: %s\nhistory:\n  %s\nmodel:%s\nblock:%s", fmt.Sprintf(format, args...), strings.Join(log, "\n  "), m, blk)
 	}
-	isFree := func(o int) bool {
-		b := ex.block()
-		return b != nil && b.Allocations[o] == nil
+	isFreeIn := func(b *model.AllocationBlock) func(int) bool {
+		return func(o int) bool { return b != nil && b.Allocations[o] == nil }
 	}
+	isFree := func(o int) bool { return isFreeIn(ex.block())(o) }
 	// The block as a reader sees it is the persisted block after a garbage-collection pass, so
 	// compare it with the model after a (tentative) pass.
 	check := func(when string) {
@@ -416,7 +445,7 @@ func c21RunHistory(t *rapid.T, rec *ev.Recorder, ex c21Exec, m *c21Model, nOps i
 			return
 		}
 		v := m.clone()
-		v.gc(isFree)
+		v.gc(isFreeIn(b))
 		if d := v.compare(b); d != "" {
 			fail("%s: %s", when, d)
 		}
@@ -435,12 +464,24 @@ func c21RunHistory(t *rapid.T, rec *ev.Recorder, ex c21Exec, m *c21Model, nOps i
 		case "assign":
 			ords, err := ex.assign(r.n, r.handle)
 			log = append(log, fmt.Sprintf("#%d %s -> ordinals %v err=%v", i, r, ords, err))
-			want := min(r.n, m.numFree())
-			if len(ords) != want {
-				fail("autoAssign(%d): %d addresses free in the model, got %d", r.n, m.numFree(), len(ords))
+			amb := 0
+			for o := 0; o < c21N; o++ {
+				if m.timingDependent(o) {
+					amb++
+				}
+			}
+			if len(ords) < min(r.n, m.numFree()) || len(ords) > min(r.n, m.numFree()+amb) {
+				fail("autoAssign(%d): %d addresses free in the model (+%d timing dependent), got %d", r.n, m.numFree(), amb, len(ords))
 			}
 			b := ex.block()
 			for _, o := range ords {
+				if m.timingDependent(o) {
+					// freed by this operation's pass a moment after the model looked: it went to
+					// the tail of the free list and was handed out from there
+					m.ords[o] = c21Ord{state: c21Alloc, handle: r.handle, seq: b.GetSequenceNumberForOrdinal(o)}
+					classes["timing-dependent-handout"] = true
+					continue
+				}
 				if m.ords[o].state == c21Cooling {
 					fail("autoAssign handed out ordinal %d which was released %ds ago (cooldown %ds)", o, m.ords[o].age, m.cooldown)
 				}
@@ -580,6 +621,8 @@ func c21RunHistory(t *rapid.T, rec *ev.Recorder, ex c21Exec, m *c21Model, nOps i
 			past := m.past
 			m = saved
 			m.past = past
+		} else if raw := ex.raw(); raw != nil {
+			m.resync(raw)
 		}
 		check(fmt.Sprintf("after #%d %s", i, r))
 	}
@@ -616,6 +659,7 @@ func (e *c21BlockExec) persist(nb allocationBlock) {
 }
 
 func (e *c21BlockExec) block() *model.AllocationBlock { return e.load().AllocationBlock }
+func (e *c21BlockExec) raw() *model.AllocationBlock   { return e.b.AllocationBlock }
 
 func (e *c21BlockExec) assign(n int, handle string) ([]int, error) {
 	nb := e.load()
@@ -739,6 +783,14 @@ func (e *c21ClientExec) block() *model.AllocationBlock {
 		return nil
 	}
 	return blockFromBackend(e.cfg, kv.Value.(*model.AllocationBlock)).AllocationBlock
+}
+
+func (e *c21ClientExec) raw() *model.AllocationBlock {
+	kv, err := e.store.Read(e.key)
+	if err != nil {
+		return nil
+	}
+	return kv.Value.(*model.AllocationBlock)
 }
 
 func (e *c21ClientExec) ord(ip cnet.IP) int {
